@@ -1,4 +1,6 @@
 import SplinkVerif.Drv.CC
+import SplinkVerif.Drv.MultiThreshold
+import SplinkVerif.Drv.Blocking
 /-! Line-protocol driver: one JSON object per input line, one JSON object per output line. -/
 open Lean SplinkVerif.Drv
 
@@ -6,6 +8,8 @@ def dispatch (j : Json) : Except String Json := do
   let op ← getStr j "op"
   match op with
   | "cc" => handleCC j
+  | "multi" => handleMulti j
+  | "block" => handleBlock j
   | "ping" => pure (Json.mkObj [("pong", Json.bool true)])
   | _ => throw s!"unknown op {op}"
 
